@@ -29,4 +29,4 @@ DELIVERABLES — write into {out}/ (for several changes use {out}/1, {out}/2, ..
   - meta.json : {{"property":"{p['id']}","summary":"...","files":[...],"needs_to_manifest":"...","commands_run":[...],"existing_tests":"which packages you re-ran and the result"}}
 When finished, leave the worktree with the change reverted (`git -C {wt} checkout -- . ` and remove the demo file), and remove any build output you created. Report briefly what you changed and why ordinary tests miss it.
 
-Environment notes: no network. Use `export GOFLAGS=-mod=mod` only if the build complains about go.sum/vendoring; otherwise plain `go`. Always wrap long commands in `timeout 600`. Please is a large repo; only build/test the packages you need.""")
+Environment notes: no network. Do NOT use `git stash` (the stash is shared between all worktrees of the repository and other agents are working in parallel): toggle your change with `git diff > cur.diff; git checkout -- .` and `git apply cur.diff`. Do not run `go clean -cache`. Use `export GOFLAGS=-mod=mod` only if the build complains about go.sum/vendoring; otherwise plain `go`. Always wrap long commands in `timeout 600`. Please is a large repo; only build/test the packages you need.""")
